@@ -17,6 +17,7 @@ import (
 	"github.com/bnb-chain/tss-lib/v2/crypto/vss"
 	ecdsakeygen "github.com/bnb-chain/tss-lib/v2/ecdsa/keygen"
 	eddsakeygen "github.com/bnb-chain/tss-lib/v2/eddsa/keygen"
+	eddsasigning "github.com/bnb-chain/tss-lib/v2/eddsa/signing"
 	"github.com/bnb-chain/tss-lib/v2/tss"
 
 	"verif/core"
@@ -210,6 +211,12 @@ func c05Gen(tier string, seed int64) []core.Case {
 		id := "eddsa-keygen/dealer-with-small-order-components-in-its-commitments@mid"
 		cs = append(cs, core.Case{ID: id, Class: id, Kind: "torsion-dealer", P: sc.P(), Cost: 1})
 	}
+	{
+		// the same for a signer's nonce commitment R_j in EdDSA signing (all three holders of a (3,1) key sign)
+		sc := sessCfg{"eddsa-signing", 3, 1, []int{0, 1, 2}, 0, 0, "seeded", 0.5}
+		id := "eddsa-signing/signer-with-a-small-order-component-in-its-nonce-point@mid"
+		cs = append(cs, core.Case{ID: id, Class: id, Kind: "torsion-signer", P: sc.P(), Cost: 1})
+	}
 	for _, sc := range smallFaultSessions() {
 		for fiI, fi := range staticFields[sc.proto] {
 			ix := ""
@@ -291,6 +298,9 @@ func c05Run(c core.Case, env *core.Env) core.Result {
 	case "weak":
 		fr, err = runWeakParams(s, c.P.Str("fpos"), c.P.Str("weak"))
 		f = faultSpec{Type: "(pre-parameters)", Field: c.P.Str("weak"), How: "weak-params", Pos: c.P.Str("fpos")}
+	case "torsion-signer":
+		fr, err = runTorsionSigner(s)
+		f = faultSpec{Type: "(crafted nonce point)", Field: "*", How: "torsion-dealer", Pos: "mid"}
 	case "torsion-dealer":
 		fr, err = runTorsionDealer(s)
 		f = faultSpec{Type: "(crafted dealing)", Field: "*", How: "torsion-dealer", Pos: "mid"}
@@ -761,6 +771,91 @@ func runTorsionDealer(s *session) (*faultRun, error) {
 			return r2p[to], m.Bcast, m.From.PID, false
 		case "KGRound2Message2":
 			return r2b, m.Bcast, m.From.PID, false
+		}
+		return m.Wire, m.Bcast, m.From.PID, false
+	}
+	w.Run(sim.StartsThen(sim.FIFO), nil)
+	return fr, nil
+}
+
+// runTorsionSigner: EdDSA signing; the deviating signer commits to R + T (T of order 2), opens it and proves knowledge of
+// log R with a proof re-drawn until it verifies for R + T. Its round-3 message stays whatever the real party sends.
+func runTorsionSigner(s *session) (*faultRun, error) {
+	w, in, err := s.make(s.env.Seed + 37)
+	if err != nil {
+		return nil, err
+	}
+	es, ok := in.(*eddsaSet)
+	if !ok {
+		return nil, fmt.Errorf("not an EdDSA key set")
+	}
+	fr := &faultRun{w: w, in: in, s: s}
+	fr.dev = pickDeviator(w, "all", "mid")
+	fr.dev.Deviator = true
+	ec := tss.Edwards()
+	q := ec.Params().N
+	ids := make([]*big.Int, len(w.Nodes))
+	for i, n := range w.Nodes {
+		ids[i] = n.PID.KeyInt()
+	}
+	// BigXj of the signers in the order of the sorted signer ids
+	var bigXs []*crypto.ECPoint
+	for _, id := range ids {
+		for k, ksID := range es.d[0].Ks {
+			if ksID.Cmp(id) == 0 {
+				bigXs = append(bigXs, es.d[0].BigXj[k])
+			}
+		}
+	}
+	flatX, err := crypto.FlattenECPoints(bigXs)
+	if err != nil || len(bigXs) != len(ids) {
+		return nil, fmt.Errorf("cannot rebuild the session id inputs")
+	}
+	ssidList := []*big.Int{ec.Params().P, ec.Params().N, ec.Params().Gx, ec.Params().Gy}
+	ssidList = append(ssidList, ids...)
+	ssidList = append(ssidList, flatX...)
+	ssidList = append(ssidList, big.NewInt(1), big.NewInt(0))
+	ctx := append(common.SHA512_256i(ssidList...).Bytes(), new(big.Int).SetUint64(uint64(fr.dev.PID.Index)).Bytes()...)
+	rr := common.GetRandomPositiveInt(rand.Reader, q)
+	T2, err := crypto.NewECPoint(ec, big.NewInt(0), new(big.Int).Sub(ec.Params().P, big.NewInt(1)))
+	if err != nil {
+		return nil, err
+	}
+	Rs, err := crypto.ScalarBaseMult(ec, rr).Add(T2)
+	if err != nil {
+		return nil, err
+	}
+	cmtR := commitments.NewHashCommitment(rand.Reader, Rs.X(), Rs.Y())
+	var pf *schnorr.ZKProof
+	for tries := 0; tries < 200; tries++ {
+		p, err := schnorr.NewZKProof(ctx, rr, Rs, rand.Reader)
+		if err == nil && p.Verify(ctx, Rs) {
+			pf = p
+			break
+		}
+	}
+	if pf == nil {
+		return nil, fmt.Errorf("could not grind a Schnorr proof for the shifted nonce point")
+	}
+	wireOf := func(m tss.ParsedMessage) []byte {
+		b, _, err := m.WireBytes()
+		if err != nil {
+			return nil
+		}
+		return b
+	}
+	r1 := wireOf(eddsasigning.NewSignRound1Message(fr.dev.PID, cmtR.C))
+	r2 := wireOf(eddsasigning.NewSignRound2Message(fr.dev.PID, cmtR.D, pf))
+	w.Rewrite = func(w *sim.World, m *sim.Msg, to *sim.Node) ([]byte, bool, *tss.PartyID, bool) {
+		if m.From != fr.dev {
+			return m.Wire, m.Bcast, m.From.PID, false
+		}
+		switch m.Short {
+		case "SignRound1Message":
+			fr.applied++
+			return r1, m.Bcast, m.From.PID, false
+		case "SignRound2Message":
+			return r2, m.Bcast, m.From.PID, false
 		}
 		return m.Wire, m.Bcast, m.From.PID, false
 	}
